@@ -50,6 +50,8 @@ fn run(rng: &mut Rng, idx: u64, tier: Tier) -> CaseOut {
     fopts.max_quant_depth = rng.range(0, 3);
     fopts.hybrids = fopts.max_quant_depth > 0;
     fopts.max_size = if tier == Tier::Quick { 12 } else { 18 };
+    // variable names that look like operators, constants, spare-variable names, ...
+    nopts.hostile_names = rng.chance(1, 6);
     let net = crate::net::gen_net(rng, &nopts);
     let f = gen_formula(rng, &fopts, &net.names);
     let need = f.quant_depth() as u16;
